@@ -22,7 +22,8 @@
 static bool verif_alloc_may_fail;
 void *cjet_malloc(size_t n) { if (verif_alloc_may_fail && nondet_bool()) return NULL; return malloc(n); }
 void *cjet_calloc(size_t a, size_t b) { if (verif_alloc_may_fail && nondet_bool()) return NULL; return calloc(a, b); }
-void cjet_free(void *p) { free(p); }
+static const void *verif_watch_free; static unsigned verif_watch_freed;   /* how often the watched block (the routing record) was released */
+void cjet_free(void *p) { if (p != NULL && p == verif_watch_free) verif_watch_freed++; free(p); }
 void log_peer_err(const struct peer *p, const char *fmt, ...) { (void)p; (void)fmt; }
 
 /* ---- ghost finite map: the path index ------------------------------------------------------------------ */
@@ -82,6 +83,7 @@ struct routing_request *alloc_routing_request(const struct peer *requesting_peer
 	verif_rr = malloc(sizeof(*verif_rr) + 2);
 	__CPROVER_assume(verif_rr != NULL);
 	verif_rr->origin_request_id = NULL; verif_rr->id[0] = 'r'; verif_rr->id[1] = 0;
+	verif_watch_free = verif_rr;
 	return verif_rr;
 }
 cJSON *create_routed_message(const struct peer *p, const char *path, enum type what, const cJSON *value, const char *id)
@@ -93,6 +95,8 @@ int setup_routing_information(struct element *e, const cJSON *request, const cJS
 	if (verif_setup_ret < 0) *response = create_error_response_from_request(rr->requesting_peer, request, INTERNAL_ERROR, "reason", "setup");
 	return verif_setup_ret;
 }
+static unsigned verif_cancel_calls; static const struct peer *verif_cancel_owner; static struct routing_request *verif_cancel_rr;
+void cancel_routing_request(const struct peer *owner_peer, struct routing_request *request) { verif_cancel_calls++; verif_cancel_owner = owner_peer; verif_cancel_rr = request; }
 static int stub_send(const struct peer *p, char *rendered, size_t len) { (void)rendered; (void)len; verif_sends++; verif_send_peer = p; return verif_send_ret; }
 
 /* ---- world: two peers, up to two existing elements, one symbolic request ------------------------------ */
@@ -326,6 +330,32 @@ void h_el_remove(void)
 #endif
 }
 
+/* ---- el.removeall: the connection-end sweep over a peer's elements (C05) -----------------------------------------
+ * every element of the leaving peer disappears from the path index and from its list, its subscribers are told "remove"
+ * exactly once per element, elements of other peers are untouched */
+void h_el_removeall(void)
+{
+	build_world();
+	for (unsigned i = 0; i < verif_ne; i++) {
+		struct element *h = malloc(sizeof(*h)); char *hp = malloc(3); void *ft = malloc(8);
+		__CPROVER_assume(h != NULL && hp != NULL && ft != NULL);
+		*h = verif_e[i]; memcpy(hp, verif_epath[i], 3); h->path = hp; h->fetcher_table = ft; verif_e[i].value = NULL;
+		list_del(&verif_e[i].element_list);
+		list_add_tail(&h->element_list, &h->peer->element_list);
+		for (unsigned k = 0; k < verif_map_n; k++) if (verif_map_val[k] == &verif_e[i]) { verif_map_val[k] = h; verif_map_key[k] = hp; }
+	}
+	snapshot();
+	remove_all_elements_from_peer(&verif_p);
+	__CPROVER_assert(list_len(&verif_p.element_list) == 0 && list_len(&verif_q.element_list) == snap_lq && verif_map_n == snap_map_n - snap_lp, "C05.leave.every-element-of-the-peer-disappears-and-no-other");
+	for (unsigned k = 0; k < verif_map_n; k++) { const struct element *e = verif_map_val[k]; __CPROVER_assert(e->peer == &verif_q, "C05.leave.elements-of-other-peers-stay-in-the-path-index"); }
+	__CPROVER_assert(verif_notify_calls == snap_lp && (snap_lp == 0 || strcmp(verif_notify_event, "remove") == 0), "C05.leave.subscribers-are-told-remove-once-per-element");
+	for (unsigned k = 0; k < verif_map_n; k++) { struct element *e = verif_map_val[k]; if (e->value) cJSON_Delete(e->value); free(e->path); free(e->fetcher_table); free(e); }
+	__CPROVER_assert(verif_cj_live_nodes == 0, "C05.leave.no-json-node-left-behind");
+#if !defined(EL_SHAPE) || ((EL_SHAPE) & 3) >= 1
+	VERIF_COVER(snap_lp >= 1, "peer owns an element");
+#endif
+}
+
 /* ---- set / call --------------------------------------------------------------------------------------------- */
 void h_el_setcall(void)
 {
@@ -354,9 +384,20 @@ void h_el_setcall(void)
 		__CPROVER_assert(verif_err == 1, "C04.setcall.refusal-is-answered-with-an-error");
 	}
 	__CPROVER_assert(verif_err + verif_ok <= 1 && (r == NULL || has_id) && verif_cj_live_nodes == verif_world_nodes + (r != NULL ? 1u : 0u), "C02.handler.at-most-one-response-object-built");
+	/* once setup_routing_information() has registered the record (routing table entry, armed timer) it belongs to the router:
+	 * the handler must not release it on a later failure (rendering, sending) - the timer and the table would keep a dangling pointer */
+	bool was_registered = verif_setup_calls == 1 && verif_setup_ret == 0;
+	bool cancelled = verif_cancel_calls == 1 && verif_cancel_rr == verif_rr && e != NULL && verif_cancel_owner == e->peer;
+	__CPROVER_assert(verif_cancel_calls == 0 || (was_registered && cancelled), "C03.route.only-a-registered-request-is-cancelled-and-at-its-owner");
+	bool registered = was_registered && verif_cancel_calls == 0;
+	__CPROVER_assert(!registered || verif_watch_freed == 0, "C15.route.registered-record-is-not-released-by-the-handler");
+	__CPROVER_assert(verif_rr == NULL || registered || verif_watch_freed == 1, "C07.route.unregistered-record-is-released-once");
+	/* exactly one answer per request: a request that is answered by the handler itself must not stay registered (it would be
+	 * answered again by its deadline or by the owner's departure), and a registered request is answered later, not now */
+	__CPROVER_assert(!registered || (r == NULL && verif_err == 0), "C02.route.request-answered-now-does-not-stay-registered");
 	if (r) cJSON_Delete(r);
 	release_world();
-	if (verif_rr != NULL && (verif_sends > 0)) free(verif_rr);
+	if (verif_rr != NULL && registered && verif_watch_freed == 0) free(verif_rr);
 	VERIF_COVER(verif_sends == 1 && what == STATE && verif_send_ret == 0, "set routed");
 	VERIF_COVER(verif_sends == 1 && what == METHOD && !has_args, "call without args routed");
 	VERIF_COVER(verif_sends == 0 && typed && !authorised, "not authorised");
